@@ -51,6 +51,34 @@ def deadline_follows_key(rng, n):
     return lines
 
 
+def overwrite_volatile(rng):
+    """a key WITH a deadline replaced as a whole by a value that has none (and the reverse): RENAME src dst, the STORE forms, LMOVE / SMOVE creating the key, SET, MSET, SETNX refused -
+    the deadline belongs to the value that was replaced, not to the name (seeded change C01-rename-onto-volatile, once caught here only by chance of the random programs)"""
+    R = execgen.render
+    lines = []
+    mk = {"str": [b"SET", b"K", b"v"], "list": [b"RPUSH", b"K", b"a", b"b"], "set": [b"SADD", b"K", b"m", b"n"], "hash": [b"HSET", b"K", b"f", b"v"], "zset": [b"ZADD", b"K", b"1", b"m"]}
+    sub = lambda c, k: [k if x == b"K" else x for x in c]
+    ops = [lambda: [b"RENAME", b"src", b"dst"], lambda: [b"SET", b"dst", b"new"], lambda: [b"MSET", b"dst", b"new"], lambda: [b"SUNIONSTORE", b"dst", b"src"], lambda: [b"SDIFFSTORE", b"dst", b"src", b"nosuch"],
+           lambda: [b"SINTERSTORE", b"dst", b"src"], lambda: [b"LMOVE", b"src", b"dst", b"LEFT", b"RIGHT"], lambda: [b"SMOVE", b"src", b"dst", b"m"], lambda: [b"SETNX", b"dst", b"new"], lambda: [b"RENAME", b"dst", b"src"]]
+    for tdst in mk:
+        for tsrc in mk:
+            for op in ops:
+                for dst_ttl, src_ttl in ((b"1000", None), (None, b"1000"), (b"1000", b"50")):
+                    if rng.random() > 0.2:
+                        continue
+                    lines.append("R")
+                    lines.append(R(sub(mk[tdst], b"dst"), [b"dst"]))
+                    lines.append(R(sub(mk[tsrc], b"src"), [b"src"]))
+                    if dst_ttl:
+                        lines.append(R([b"EXPIRE", b"dst", dst_ttl], [b"dst"]))
+                    if src_ttl:
+                        lines.append(R([b"EXPIRE", b"src", src_ttl], [b"src"]))
+                    lines.append(R(op(), [b"src", b"dst"]))
+                    lines.append(R([b"TTL", b"dst"], [b"src", b"dst"]))
+                    lines.append(R([b"TTL", b"src"], [b"src", b"dst"], full=True))
+    return lines
+
+
 def run(R, ctx):
     rng = random.Random(R.seed * 7 + 6)
     nb, n = (2, 600) if R.tier == "quick" else (30, 800)
@@ -70,7 +98,7 @@ def run(R, ctx):
                                   "writing string/key command before the deadline, in the lazy-expiry-only window and after the timers fired; plus "
                                   "TTL interplay (keys due in 1 s are extended / persisted / deleted / overwritten / renamed: the keys due in 2 s still expire on time); a keyspace snapshot written and loaded into a fresh database in the lazy-expiry window (restore across a deadline: every value type); "
                                   "ordinary programs of every command family with long, zero and negative TTLs (a deadline left behind by a deleted key, or inherited by a re-created one, shows in the dump)",
-                             extra_lines=lines + deadline_follows_key(rng, 400 if R.tier == "quick" else 6000))
+                             extra_lines=lines + deadline_follows_key(rng, 400 if R.tier == "quick" else 6000) + overwrite_volatile(random.Random(R.seed * 11 + 6)))
     R.extra["ttl_batches"] = dict(batches=nb, scenarios_per_batch=n, attach_kinds=ttlgen.ATTACH, modifiers=ttlgen.MODIFY, probes=ttlgen.PROBES)
 
 
